@@ -248,8 +248,8 @@ PROPS["C08"] = dict(
     rule=("remote-vs-local: rapid-drawn calls; non-trivial = at least one non-zero argument. Classes: transport x outcome (ok/error/panic), mode (proxy/invoke/ns), pool, function. "
           "missing-method: generated unknown names x handler installed or not. Distinct by case text."),
     assumptions=["struct types of the catalogue are registered", "time.Local pinned to a fixed zone", "loopback networking and unix sockets are available"],
-    quick=dict(shards=4, timeout=600),
-    thorough=dict(shards=16, timeout=2400),
+    quick=dict(shards=4, timeout=600, race_run="^TestConcurrentCalls$"),
+    thorough=dict(shards=16, timeout=2400, race_run="^(TestConcurrentCalls|TestRemoteEqualsLocal)$"),
 )
 
 PROPS["C09"] = dict(
@@ -263,13 +263,15 @@ PROPS["C09"] = dict(
                 "wrap the 15-bit identifier and a second pending call is issued; both must get their own response in either release order. (d) Reverse calls: concurrent "
                 "Caller.InvokeContext against a real provider with gated functions, and against a scripted provider returning results in generated batches with unknown and "
                 "repeated identifiers; and a forced interleaving (verif yield point in Caller.begin) in which calls are queued exactly while the provider's begin is between its queue "
-                "check and its registration."),
+                "check and its registration. (e) Websocket connection churn (both servers): short-lived connections ended by the server or abandoned by the client while slow calls are "
+                "being answered, 8 at a time. One extra process per run executes (e) and the concurrent-caller sub-checks from a race-detector build, so a connection whose buffers are "
+                "still in use when the server recycles them, or any other unsynchronised access on these paths, is reported."),
     level_note="Completion order is controlled by the harness (gates inside the service function, scripted peers); the interleaving of the callers' registrations is left to the Go scheduler and sampled.",
     rule=("real-service / reverse-provider: rapid-drawn (endpoint, callers, completion order); all non-trivial (>= 2 concurrent calls). scripted-peer / reverse-scripted: non-trivial = the script contains "
           "at least one stray or duplicate. udp-wrap: fixed scenarios x pool x release order. reverse-forced: transport x earlier calls x calls in the window, all non-trivial. Distinct by case text."),
     assumptions=["loopback networking and unix sockets are available", "identifier reuse by a stale response arriving after 32768 further calls on UDP is outside the protocol's reach and not generated"],
-    quick=dict(shards=4, timeout=900),
-    thorough=dict(shards=16, timeout=3000),
+    quick=dict(shards=4, timeout=900, race_run="^(TestWSChurn|TestRealService|TestScriptedPeer)$"),
+    thorough=dict(shards=16, timeout=3000, race_run="^(TestWSChurn|TestRealService|TestScriptedPeer|TestReverseProvider|TestReverseScripted)$"),
 )
 
 PROPS["C12"] = dict(
@@ -323,7 +325,7 @@ PROPS["C11"] = dict(
           "(call / connection / raw peer), pool. Distinct by case text."),
     assumptions=["loopback networking and unix sockets are available"],
     quick=dict(shards=4, timeout=900),
-    thorough=dict(shards=16, timeout=3000),
+    thorough=dict(shards=16, timeout=3000, race_run="^(TestEveryFault|TestFaultSequences|TestClientSide)$"),
 )
 
 PROPS["C10"] = dict(
@@ -341,8 +343,8 @@ PROPS["C10"] = dict(
     rule=("rapid-drawn cases; non-trivial = the peer does not simply answer. forced-races / stalled-sender / no-accumulation / service-timeout: enumerated scenarios. Classes: transport x peer behaviour, "
           "terminator, timeout set or not, yield point x event. Distinct by case text."),
     assumptions=["loopback networking and unix sockets are available", "the machine is not so loaded that a runnable goroutine waits more than 0.7 s"],
-    quick=dict(shards=4, timeout=1200),
-    thorough=dict(shards=8, timeout=3600),
+    quick=dict(shards=4, timeout=1200, race_run="^(TestRealServer|TestNoAccumulation)$"),
+    thorough=dict(shards=8, timeout=3600, race_run="^(TestRealServer|TestNoAccumulation|TestPeerFaults|TestForcedRaces|TestStalledSender)$"),
 )
 
 # properties not claimed yet (kept current as checks land)
